@@ -11,6 +11,21 @@ CHECKS = {
           "Generated JWS offers in all three serializations are decoded by an independent byte/JSON splitter; a recording verifier checks the exact (alg, signing input, signature, key) handed over; every single-bit flip of 108 verifying tokens (Ed25519, ES256, ES256K) must be rejected; an exhaustive alg/key configuration table runs against the concrete verifiers.",
           "Trusts the harness splitter, iota-crypto/p256/k256 as reference verifiers and serde_json. Only the 'verified only if' direction is asserted. ECDSA high-S malleability is outside single-bit mutations.",
           "DESIGN.md §2 C01"),
+  "C02": ("exploration",
+          "exhaustive single/pair deviation table + proptest condition vectors; acceptance and error identification judged from the vector by a harness-side model",
+          "A vector of ~25 independent choices (method, kid form, scope, signer, issuer, nonce, boundary dates, structure, subject-holder, status x StatusCheck, FailFast) is drawn; the harness computes 11 conditions (True/False/Open) from the vector alone with its own kid-resolution model and signs the token itself; Ok with any False condition, an error naming no failing condition, a missed unit under AllErrors, or a returned credential differing from the signed one is the violation.",
+          "Open coordinates (statement silent: fragment-only kid, malformed status shapes) are not judged; all-true-but-rejected only feeds a vacuity guard; a 5% class uses default bounds with dates far from the clock.",
+          "DESIGN.md §2 C02"),
+  "C03": ("exploration",
+          "exhaustive deviation table + proptest condition vectors against a harness-side model of method selection and claim conditions",
+          "Presentation tokens signed by the harness over vectors of kid forms (full id, #frag, bare fragment, foreign-DID methods), method_id, scope, signer, nonce, iss forms, exp/nbf/iat boundaries and vp.id/vp.holder duplication; Ok with any False condition or a returned presentation/aud/dates/claims differing from the signed ones is the violation.",
+          "Only the 'accepted only if' direction and value identity are asserted (the statement says only that an error is returned); ambiguous fragments and out-of-range dates are Open here (C07 owns the latter).",
+          "DESIGN.md §2 C03"),
+  "C07": ("exploration",
+          "proptest credential/presentation generators with round trip through the public validators; exhaustive duplicated-member and date matrices",
+          "Generated credentials/presentations over every optional member are serialised to claims (checked member by member as JSON), signed and read back through the validators (must equal the original); exhaustive matrices of each duplicated member absent/equal/different x registered claim present/absent and of exp/nbf/iat over range-end values get a clause-by-clause Reject/Either/Accept verdict.",
+          "A one-element subject array may be refused; an out-of-range iat that is shadowed by a valid nbf is 'either'.",
+          "DESIGN.md §2 C07"),
   "C04": ("exploration",
           "model-based stateful testing: bounded-exhaustive and random operation histories against a set-of-entries document model",
           "All operation histories to depth 2 (quick) / 3 (thorough) over 43 operations from 7 starting documents, plus random histories to length 25; after every step the id constraints are evaluated on the JSON output by harness code, the JSON round trip is checked, frame conditions are checked against the reported result, and 21 queries x 7 scopes are compared with the abstract model.",
@@ -51,6 +66,11 @@ CHECKS = {
           "Operation histories (<= 40 ops, valid and invalid arguments) run against JwkMemStore/KeyIdMemstore and a reference model with independent RFC 7638 thumbprints and iota-crypto verification; 2..16 threads released by a barrier race to insert one digest.",
           "The Stronghold store is not built in this harness (not covered). The thread schedule is the OS's: the race part is statistical stress. generate uses OS randomness (verdicts key-independent).",
           "DESIGN.md §2 C15"),
+  "C16": ("exploration",
+          "exhaustive disclosure-subset and single/pair decision tables + proptest condition vectors against a harness-side SD-JWT model",
+          "Every visible/disclosed/withheld assignment of 7 claims x 3 encoders, base + every single + every pair of 153 credential-side and 112 KB-JWT-side alternatives, and random condition vectors are validated; acceptance with any false coordinate, a returned credential that differs from the entitled view, or a panic is the violation.",
+          "The harness computes disclosures/digests with its own SHA-256/base64url. The header typ compared is the dependency's constant (\" kb+jwt\"); the literal kb+jwt, duplicated disclosures and the zero-disclosure spec hash layout are unasserted. Only 'accepted only if' is asserted.",
+          "DESIGN.md §2 C16"),
   "C18": ("exploration",
           "bounded-exhaustive grid + proptest JWK specs against an independent RFC 7638 / private-member model; setter histories; generated-key documents",
           "All (kty, parameter family, private-member subset, foreign members, key_ops, route) combinations plus random specs are checked for projection cleanliness, idempotence, is_public, thumbprint invariance and kty/params coherence; constructors and generate_method output are searched for private members and secret strings.",
